@@ -711,6 +711,12 @@ class Parser:
                 end_lineno=cmd.end_lineno,
                 end_col_offset=cmd.end_col_offset,
             )
+        # @(...)@(...)
+        if isinstance(tree, ast.Starred | ast.Tuple) and isinstance(cmd, ast.Starred):
+            elts = [*tree.elts, cmd] if isinstance(tree, ast.Tuple) else [tree, cmd]
+            return ast.Tuple(
+                elts=elts, ctx=Load, **locs, end_lineno=cmd.end_lineno, end_col_offset=cmd.end_col_offset
+            )
         # @(...)suffix
         if isinstance(tree, ast.Starred | ast.Tuple) and isinstance(cmd, TokenInfo):
             suffix = ast.Constant(value=cmd.string, **cmd.loc())
